@@ -628,7 +628,13 @@ fn run_hdlc(seed: u64) -> Result<u64, Fail> {
         hdlc_frame(&payload, with_crc, &mut bits);
         if deliver { want.push(payload); }
         // idle: 0..3 extra flags or some zeros (never 6 ones directly before a flag)
-        match rng.below(3) { 0 => {}, 1 => bits.extend_from_slice(&[0, 1, 1, 1, 1, 1, 1, 0]), _ => bits.extend_from_slice(&[0, 0, 1, 0]) }
+        match rng.below(3) {
+            0 => {}
+            1 => {
+                bits.extend_from_slice(&[0, 1, 1, 1, 1, 1, 1, 0]);
+            }
+            _ => bits.extend_from_slice(&[0, 0, 1, 0]),
+        }
     }
     bits.extend_from_slice(&[0, 0, 0, 0]);
     // feed in random pieces
@@ -651,6 +657,13 @@ fn run_hdlc(seed: u64) -> Result<u64, Fail> {
             return Err(Fail { target: target.into(), prop: "C15", label: "C15.hdlc.work-does-not-panic".into(), what: format!("work() panicked after {pos} of {} bits", bits.len()), seed, params });
         }
         while let Some((p, _)) = out.pop() { got.push(p); }
+    }
+    if min_size == 0 && !with_crc {
+        // Two adjacent flags (idle fill, or the closing flag of one frame followed by the opening flag of the next)
+        // enclose zero bits: with min_size 0 and no checksum that IS a zero-length frame within the configured
+        // limits, so empty frames are inherent to this configuration and are not compared.
+        got.retain(|p| !p.is_empty());
+        want.retain(|p| !p.is_empty());
     }
     if got != want {
         return Err(Fail { target: target.into(), prop: "C13", label: "C13.hdlc.every-valid-frame-exactly-once-nothing-else".into(),
